@@ -60,6 +60,12 @@ impl<T> LRUCache<T> {
         }
     }
 
+    // Verification hook: look up without touching the second-chance flag
+    #[cfg(redb_verif)]
+    pub(crate) fn verif_peek(&self, key: u64) -> Option<&T> {
+        self.cache.get(&key).map(|(value, _)| value)
+    }
+
     pub(crate) fn get_mut(&mut self, key: u64) -> Option<&mut T> {
         if let Some((value, second_chance)) = self.cache.get_mut(&key) {
             second_chance.store(true, Ordering::Release);
